@@ -63,10 +63,12 @@ def build_top(md):
         top.add_atom(an, E.hydrogen, r)
     r = top.add_residue("5CY", c2, 5, "SEGA")
     top.add_atom("HB", E.hydrogen, r); top.add_atom("C1", E.carbon, r)
+    r = top.add_residue("0E5", c2, 6, "2E5")
+    top.add_atom("N", E.nitrogen, r); top.add_atom("CA", E.carbon, r)
     return top
 
 
-DIGIT_NAMES = ["1HB", "2HB", "1HD1", "22HX"]
+DIGIT_NAMES = ["1HB", "2HB", "1HD1", "22HX", "0E5", "1e2"]      # the last two look like numbers in scientific notation and are names (0E5 is a PDB component id)
 
 
 LOWER_NAMES = ["ne2", "and1", "orx", "lt3", "eq1", "ge1", "le5", "gta", "nex", "notb", "in2", "to1", "water1", "all2", "name3", "within"]
@@ -116,7 +118,7 @@ PREC = {"or": 0, "and": 1, "not": 2, "regex": 3, "cmp": 3, "kwbool": 4, "inlist"
 
 def gen_lit(rng, kind):
     if kind == "str":
-        s = rng.choice(["CA", "CB", "N", "O", "H1", "ALA", "GLY", "HOH", "NA", "SEGA", "ION", "C", "H", "A", "G", "LIG", "Ca", "X9", "O5'", "C5'", "C4'", "H5''", "C5", "DA", "P"] + LOWER_NAMES + ["leu", "orx"] + DIGIT_NAMES + ["HB", "HD1", "5CY", "HID"])
+        s = rng.choice(["CA", "CB", "N", "O", "H1", "ALA", "GLY", "HOH", "NA", "SEGA", "ION", "C", "H", "A", "G", "LIG", "Ca", "X9", "O5'", "C5'", "C4'", "H5''", "C5", "DA", "P"] + LOWER_NAMES + ["leu", "orx"] + DIGIT_NAMES + ["HB", "HD1", "5CY", "HID", "2E5"])
         return ("q", s) if ("'" in s or rng.random() < 0.35) else ("w", s)
     if kind == "int":
         return ("n", rng.choice([0, 1, 2, 3, 5, 7, 10, 11, 12, 25]))
@@ -381,7 +383,8 @@ def run(ctx):
     for (e, T, s_) in jobs[:ctx.n(260, 3000)]:
         raws.append((e, respace(s_.split(" ") if "'" not in s_ and '"' not in s_ else R.expr(e)[1])))
     junk = ["name C_1", "name CA#", "resid 1,2", "name [CA]", "index -1", "name CA;", "resSeq 1 to 5 ~", "name C*", "not(protein)", "name CA and not(name N)", "n_bonds_ 1", "is_proteinX", "name 'CA", "name \"CA"]
-    compare_only = ["not\tprotein", "not\nprotein", "name not\tCA", "mass 1e5", "name 1 1HB", "resname 5CY HID", "name 2HB or name HB", "(name 1HB)", "name=='1HB'", "name==1HB"]
+    compare_only = ["not\tprotein", "not\nprotein", "name not\tCA", "mass 1e5", "name 1 1HB", "resname 5CY HID", "name 2HB or name HB", "(name 1HB)", "name=='1HB'", "name==1HB",
+                    "resname 0E5", "resname != 0E5", "not resname 0E5", "name 1e2", "segname 2E5", "resname ALA 0E5 HOH", "name 1e2 CA or resname 0E5"]
     junk += compare_only
     rawm = ctx.driver.query(["selraw %s %s" % (x.encode().hex(), atoms_enc) for _, x in raws] + ["selraw %s %s" % (x.encode().hex(), atoms_enc) for x in junk]) if ctx.driver_ok else [None] * (len(raws) + len(junk))
     for (e, x), m in zip(raws + [(None, j) for j in junk], rawm):
